@@ -300,7 +300,16 @@ class SimSink(Component):
         pass
 
 
-KINDS = {"sim": SimComp, "pull": SimPull, "sink": SimSink}
+def make_wsum(spec, world):
+    """the REAL library merger; spec inputs are [A, A_weight, B, B_weight, ...]"""
+    from finam.components import WeightedSum
+    comp = WeightedSum(inputs=[i["name"] for i in spec["inputs"][::2]])
+    comp.with_name(spec["name"])
+    comp.pulls = {i["name"]: [] for i in spec["inputs"]}
+    return comp
+
+
+KINDS = {"sim": SimComp, "pull": SimPull, "sink": SimSink, "wsum": make_wsum}
 
 
 # ----------------------------------------------------------------------------- world
